@@ -128,9 +128,11 @@ def check_matrices(ctx):
         for arr in ('update_array', 'delay_update_array'):
             if n.startswith('self.%s=np.zeros((' % arr):
                 shape = n
-                dims = n[len('self.%s=np.zeros((' % arr):].rstrip(')').split(',')
+                node = [x for x in ast.walk(f) if isinstance(x, ast.Assign) and k(util.stmt_key(x)) == n][0]
+                tup = node.value.args[0]
+                dims = [k(src(e)) for e in tup.elts] if isinstance(tup, ast.Tuple) else [k(src(tup))]
                 asg = {x.split('=')[0]: x.split('=', 1)[1] for x in txt if '=' in x and x.split('=')[0].isidentifier()}
-                d = [asg.get(x, x) for x in dims[:2]]
+                d = [asg.get(x, x) for x in dims[:2]] + [None, None]
                 if d[0] not in ('len(self.species2index.keys())', 'len(self.species2index)') or d[1] != 'len(self.reaction_list)':
                     problems.append('%s allocated with shape (%s, %s)' % (arr, d[0], d[1]))
     if len([n for n in txt if n.startswith('self.update_array=np.zeros((')]) != 1 or len([n for n in txt if n.startswith('self.delay_update_array=np.zeros((')]) != 1:
